@@ -124,7 +124,8 @@ def gen_topology(rng, family=None, c03=True, nframes=None):
     # required outputs = every consumer (C03 hypothesis)
     for n in nodes:
         n['required'] = [m['name'] for m in nodes if any(s.split(';')[0].rstrip('?') == 'ipc://' + n['name'] and not s.split(';')[0].endswith('?') for s in m['sources'])]
-    return {'family': family, 'nframes': nframes, 'nodes': nodes, 'max_delay_ms': rng.choice([0, 5, 20, 60, 90])}
+    return {'family': family, 'nframes': nframes, 'nodes': nodes, 'max_delay_ms': rng.choice([0, 5, 20, 60, 90]),
+            'sub_connect_ms': rng.choice([0, 0, 30, 90, 400])}     # slow joiner: the publish path of a connection comes up later than its request path
 
 
 def build(net, topo, listeners=()):
@@ -209,6 +210,7 @@ def canon_frames(fr):
 
 def run_topology(topo, seed, horizon_s=40, listeners=(), faults=None, trace=False, loss=0.0):
     net = mqnet.Net(seed, max_delay_ms=topo['max_delay_ms'], loss=loss, trace=trace)
+    net.sub_connect = int(topo.get('sub_connect_ms', 0) * 1_000_000)
     objs = build(net, topo, listeners)
     fl = []
     for f in (faults or []):
